@@ -82,7 +82,7 @@ def program(name, method, branches, cap):
         must_reach!(b != 255, "a branch was taken (trim forms: the macro ran)");
         must_reach!(w.len() == %d, "full-length input");
     }
-    tiers! { %s: unwind(%d, %d), check(), check(),
+    tiers1! { %s: unwind(%d, %d), check(), check(),
         calls("konst::parser_method!(.., %s; ..)", "konst_proc_macros::__priv_bstr_start/__priv_bstr_end (output only)"),
         bounds("every valid UTF-8 input <=%d bytes, base <= 2^20; literals: %s", "same") }
 """ % (cap, ".skip_back(0)" if front else "", spec, post, "FromStart" if front else "FromEnd", cap, name, cap + 4, cap + 4, method, cap,
@@ -94,7 +94,7 @@ def main():
     args = parse_args()
     fam = Family(args, "C18")
     rng = fam.rng
-    per_method = 5 if args.tier == "quick" else 30
+    per_method = 5 if args.tier == "quick" else 12
     n = 0
     toks = [a for a, _ in ATOMS]
     # every atom appears at least once as a single strip_prefix / strip_suffix alternative next to a plain one
